@@ -144,7 +144,7 @@ def worker(shard, nshards, tier, seed):
 
 def run(tier, seed):
     terms_for(tier)
-    acc = parallel(worker, tier, seed, nshards=128)
+    acc = parallel(worker, tier, seed, nshards=128, warm_pass=True)
     b = BOUNDS[tier]
     cov = {
         "states": acc.n["schemas"],
